@@ -306,9 +306,20 @@ class FileResponse(StreamResponse):
         count: int = file_size
         start: int | None = None
 
-        if (ifrange := request.if_range) is None or file_mtime <= ifrange.timestamp():
+        if (ifrange := request.if_range) is not None:
+            range_applies = file_mtime <= ifrange.timestamp()
+        elif (raw_ifrange := request.headers.get(hdrs.IF_RANGE)) is not None:
+            # Not a date: an entity-tag, compared strongly with the current one
+            # (https://www.rfc-editor.org/rfc/rfc9110#section-13.1.5);
+            # anything else matches nothing and the Range is ignored.
+            range_applies = raw_ifrange.strip() == f'"{st.st_mtime_ns:x}-{file_size:x}"'
+        else:
+            range_applies = True
+
+        if range_applies:
             # If-Range header check:
             # condition = cached date >= last modification date
+            # (or the entity-tag is the current one)
             # return 206 if True else 200.
             # if False:
             #   Range header would not be processed, return 200
